@@ -5,7 +5,7 @@ import re
 
 from .. import AnalysisError
 from ..cfg import ALL_KINDS, NORMAL_KINDS, iter_own
-from ..lib import _single_return, both_orders, comp_norm, edge_cond_inlined, inlined, iteration_paths, dominated_by, guard_forms, key_of, norm, render, return_conditions
+from ..lib import _single_return, both_orders, comp_norm, edge_cond_inlined, inlined, inlined_expr, iteration_paths, dominated_by, guard_forms, key_of, norm, render, return_conditions
 from ..report import describe, rule
 
 P = "C18"
@@ -475,3 +475,32 @@ def _exit_test_ok(txt, RET, IV, MT):
     a = {parts[0], "==".join(reversed(parts[0].split("==")))} if "==" in parts[0] else {parts[0]}
     b = {parts[1], "==".join(reversed(parts[1].split("==")))} if "==" in parts[1] else {parts[1]}
     return bool(a & {f"{RET}==0"}) and bool(b & {f"{IV}=={MT}-1", f"{IV}==({MT}-1)"})
+
+
+@rule(P, "C18.7", "T1", "the single-job poll answers NONE (= gone) only for an empty answer or the scheduler's own 'invalid id' - never for an answer it cannot parse", min_obligations=2)
+def c18_7(ctx, r):
+    """SlurmManager.check_status: NONE counts as finished everywhere (is_complete, submit(wait=True), show-status recovery).  squeue's fixed-width
+    columns run together for long names, so an answer can have fewer tokens than fields while the batch is running.  Such an answer must not
+    be read as 'no such job'.  Decided: every return whose status is HpcJobStatus.NONE is guarded by (a) the token list being *empty*, or
+    (b) a failed command whose stderr carries the listed permanent error; nothing weaker (a length comparison against the field count)."""
+    fn = ctx.fn("SlurmManager.check_status", "C18.7")
+    cfg = ctx.cfg(fn)
+    n = 0
+    for nd in cfg.nodes:
+        a = nd.ast
+        if nd.kind != "stmt" or not isinstance(a, ast.Return) or a.value is None or "HpcJobStatus.NONE" not in ctx.src(inlined_expr(ctx, fn, a.value)):
+            continue
+        if ".get(" in ctx.src(inlined_expr(ctx, fn, a.value)):
+            continue  # the table lookup's default is judged by C18.3
+        n += 1
+        forms = guard_forms(ctx, fn, nd)
+        pos = {f.replace(" ", "") for f, p in forms if p}
+        neg = {f.replace(" ", "") for f, p in forms if not p}
+        empty = any(re.fullmatch(r"\w+", f) for f in neg) or any(re.fullmatch(r"len\(\w+\)==0|0==len\(\w+\)|\w+==\[\]|\[\]==\w+", f) for f in pos)
+        invalid = any("stderr" in f and "in" in f for f in pos) and (any(re.fullmatch(r"\w+!=0|0!=\w+", f) for f in pos) or any(re.fullmatch(r"\w+==0|0==\w+", f) for f in neg))
+        weak = [f for f in pos | neg if re.search(r"len\(\w+\)(<|<=|!=)|(<|>|>=|!=)len\(", f) and not re.fullmatch(r"len\(\w+\)==0|0==len\(\w+\)", f)]
+        r.check((empty or invalid) and not weak, "NONE is answered for an empty answer / the scheduler's invalid-id error only", key_of(fn, "NONE for an unparsable answer"), fn.loc(a),
+                f"check_status answers HpcJobStatus.NONE under {sorted(('' if p else 'not ') + f for f, p in forms)}: an answer it merely cannot parse (fewer tokens than fields - squeue's fixed-width columns run "
+                "together for long batch names) is reported as 'no such job', which every caller treats as finished while the batch is running", "a status that cannot be determined is never treated as finished")
+    if n < 2:
+        raise AnalysisError("C18.7", f"{n} NONE answers recognised in SlurmManager.check_status")
